@@ -614,6 +614,22 @@ fn observe_checks(entry: &Path, case_dir: &Path, names: &[String], spans: &[Vec<
         Ok(c) => check_str(c.check()),
         Err(e) => format!("OpenErr:{}", dump::err_class(&e)),
     };
+    // the same question to a container that has been used first: every pack asked for, a content
+    // of each read (what the container learnt while reading must not replace checking)
+    let container_used = match jubako::reader::Container::new(entry) {
+        Ok(c) => {
+            for id in 0..=40u16 {
+                if let Ok(Some(jubako::reader::MayMissPack::FOUND(p))) = c.get_pack(jubako::PackId::from(id)) {
+                    if let Ok(Some(region)) = p.get_content(jubako::ContentIdx::from(0u32)) {
+                        let _ = dump::read_region(&region);
+                    }
+                }
+            }
+            let _ = c.get_index_for_name("all");
+            check_str(c.check())
+        }
+        Err(e) => format!("OpenErr:{}", dump::err_class(&e)),
+    };
     let mut file_checks = BTreeMap::new();
     let mut pack_checks = BTreeMap::new();
     for &fi in touched {
@@ -652,7 +668,7 @@ fn observe_checks(entry: &Path, case_dir: &Path, names: &[String], spans: &[Vec<
             pack_checks.insert(format!("{}#{}", names[fi], si), r);
         }
     }
-    json!({"container": container, "files": file_checks, "packs": pack_checks})
+    json!({"container": container, "container_after_use": container_used, "files": file_checks, "packs": pack_checks})
 }
 
 fn fault_hits_manifest_slot(fault: &Fault, spans: &[Vec<PackSpan>]) -> bool {
@@ -1026,6 +1042,9 @@ fn c04_violation(rec: &Value, exempt: bool) -> Option<String> {
     if obs["container"] == "true" {
         trues.push("Container::check".to_string());
     }
+    if obs["container_after_use"] == "true" {
+        trues.push("Container::check(after packs and contents were read through it)".to_string());
+    }
     for (k, v) in obs["files"].as_object().into_iter().flatten() {
         if v == "true" {
             let _ = k;
@@ -1139,6 +1158,96 @@ fn case_record(img: &ImageInfo, ii: usize, i: u64, fault: &Fault, outcome: CaseO
                    "profile": profile})
         }
     }
+}
+
+/// Files that exist on any Linux system and are not Jubako files (C06's "not a Jubako file at all").
+const SPECIAL_FILES: [&str; 10] = [
+    "/sys/kernel/mm/transparent_hugepage/enabled",
+    "/sys/kernel/mm/transparent_hugepage/defrag",
+    "/sys/devices/system/cpu/online",
+    "/proc/self/status",
+    "/proc/cpuinfo",
+    "/proc/version",
+    "/proc/self/maps",
+    "/dev/null",
+    "/dev/zero",
+    "/dev/urandom",
+];
+
+/// Open and read `path` with every entry point, in a child process: "done", "panic: ..",
+/// "signal:N" or "stalled".
+fn run_special_child(exe: &str, path: &str) -> String {
+    let mut child = std::process::Command::new(exe)
+        .arg("child-special")
+        .arg(path)
+        .stdin(std::process::Stdio::null())
+        .stdout(std::process::Stdio::null())
+        .stderr(std::process::Stdio::piped())
+        .spawn()
+        .expect("spawn special-file child");
+    let start = std::time::Instant::now();
+    loop {
+        match child.try_wait() {
+            Ok(Some(st)) => {
+                use std::os::unix::process::ExitStatusExt;
+                let mut err = String::new();
+                if let Some(mut e) = child.stderr.take() {
+                    use std::io::Read;
+                    let _ = e.read_to_string(&mut err);
+                }
+                return match (st.code(), st.signal()) {
+                    (Some(0), _) => "done".into(),
+                    (Some(101), _) => format!("panic: {}", err.lines().find(|l| l.contains("panicked at")).unwrap_or("").trim()),
+                    (Some(c), _) => format!("exit:{c}"),
+                    (None, Some(s)) => format!("signal:{s}"),
+                    _ => "unknown".into(),
+                };
+            }
+            Ok(None) => {
+                if start.elapsed().as_secs() > 20 {
+                    let _ = child.kill();
+                    let _ = child.wait();
+                    return "stalled".into();
+                }
+                std::thread::sleep(std::time::Duration::from_millis(2));
+            }
+            Err(_) => return "wait-error".into(),
+        }
+    }
+}
+
+/// "panic: thread 'main' (123) panicked at src/bases/io/buffer.rs:33:9:" -> "panic@src/bases/io/buffer.rs"
+fn special_outcome_class(outcome: &str) -> String {
+    if let Some(rest) = outcome.split("panicked at ").nth(1) {
+        let file = rest.split(':').next().unwrap_or("?");
+        let file = file.strip_prefix("/repo/").unwrap_or(file);
+        return format!("panic@{file}");
+    }
+    outcome.split_whitespace().next().unwrap_or("?").to_string()
+}
+
+/// child: every way of opening a file, on something that is not a Jubako file
+pub fn special_child_main(args: &Args) -> ! {
+    let path = &args.rest[0];
+    let _ = jubako::reader::Container::new(path).map(|c| c.check());
+    let _ = jubako::tools::open_pack(path).map(|p| p.check());
+    if let Ok(fs) = jubako::FileSource::open(path) {
+        let reader: jubako::Reader = fs.into();
+        let _ = jubako::reader::ContentPack::new(reader);
+    }
+    if let Ok(fs) = jubako::FileSource::open(path) {
+        let reader: jubako::Reader = fs.into();
+        let _ = jubako::reader::DirectoryPack::new(reader);
+    }
+    if let Ok(fs) = jubako::FileSource::open(path) {
+        let reader: jubako::Reader = fs.into();
+        let _ = jubako::reader::ManifestPack::new(reader);
+    }
+    if let Ok(fs) = jubako::FileSource::open(path) {
+        let reader: jubako::Reader = fs.into();
+        let _ = jubako::reader::ContainerPack::new(reader);
+    }
+    std::process::exit(0)
 }
 
 pub fn parent_main(args: &Args, mode: Mode) -> ! {
@@ -1279,6 +1388,36 @@ pub fn parent_main(args: &Args, mode: Mode) -> ! {
                 });
             }
         }
+    }
+    // (C06) files that are not Jubako files at all, of the special kind: pseudo files whose
+    // reported size promises more than can be read (sysfs), files of size 0 that deliver data
+    // (procfs), character devices. One child per file and profile; a panic, signal or stall is a
+    // violation like for any other non-Jubako file.
+    let mut special_cases = 0u64;
+    if mode == Mode::C06 {
+        for (profile, bin) in &profiles {
+            let exe = bin.clone().unwrap_or_else(|| std::env::current_exe().unwrap().to_string_lossy().to_string());
+            for path in SPECIAL_FILES {
+                if !Path::new(path).exists() {
+                    continue;
+                }
+                special_cases += 1;
+                ev.evaluations += 1;
+                ev.fired("special-file (pseudo file / device)", 1);
+                ev.distinct.insert(simcore::prng::hash_label(0, &format!("special|{profile}|{path}"), 0));
+                let outcome = run_special_child(&exe, path);
+                *outcome_counts.entry(format!("{profile}:special:{}", outcome.split(':').next().unwrap_or("?"))).or_insert(0) += 1;
+                if outcome != "done" {
+                    violations.push(Violation {
+                        signature: format!("{id}|{profile}|special-file|{path}|{}", special_outcome_class(&outcome)),
+                        image: "special-file".into(),
+                        fault: path.to_string(),
+                        detail: json!({"special_file": path, "profile": profile, "outcome": outcome}),
+                    });
+                }
+            }
+        }
+        ev.extra.insert("special_file_cases".into(), json!(special_cases));
     }
     // classify violations: known findings vs new
     let mut new_violations: Vec<&Violation> = Vec::new();
@@ -1424,6 +1563,29 @@ pub fn replay_main(args: &Args, mode: Mode, file: &str) -> ! {
     .unwrap_or_else(|e| simcore::harness_error(&format!("replay file does not parse: {e}")));
     let image = v["image"].as_str().unwrap().to_string();
     let fault = v["fault"].as_str().unwrap().to_string();
+    if image == "special-file" {
+        // `fault` is the path of the pseudo file / device; both build profiles
+        let mut bad = vec![];
+        for (profile, exe) in [("release", std::env::current_exe().unwrap().to_string_lossy().to_string()), ("debug", debug_bin())] {
+            if !Path::new(&exe).exists() {
+                continue;
+            }
+            let outcome = run_special_child(&exe, &fault);
+            println!("replay special file {fault} ({profile}): {outcome}");
+            if outcome != "done" {
+                bad.push(format!("{profile}: {outcome}"));
+            }
+        }
+        if bad.is_empty() {
+            println!("no violation on replay");
+            std::process::exit(0)
+        }
+        println!("VIOLATION property={} replay={file}", mode.id());
+        for b in bad {
+            println!("  {b}");
+        }
+        std::process::exit(1)
+    }
     let seed = v["seed"].as_u64().unwrap();
     let tier = Tier::parse(v["tier"].as_str().unwrap()).unwrap();
     let hooks = FHooks::install();
